@@ -160,6 +160,24 @@ def handle (j : Json) : Except String Json := do
   | "pda_push_pop" => do
     let P0 ← decPDA (← j.getObjVal? "P")
     pure (exc encPDA (do let P ← P0.toPushPopS; PDA.checked P))
+  -- minimisation (C04)
+  | "dfa_minimize" => do
+    let D ← decDFA (← j.getObjVal? "D")
+    pure (exc encDFA (do let M ← D.minimizeTable; pure (M.mapStates printStateSet)))
+  | "dfa_quotient" => do
+    let D ← decDFA (← j.getObjVal? "D")
+    pure (exc encDFA (do let M ← D.quotient; pure (M.mapStates printStateSet)))
+  | "dfa_hopcroft" => do
+    let D ← decDFA (← j.getObjVal? "D")
+    let sc ← getSched j
+    pure (exc encDFA (do let M ← D.hopcroft sc; pure (M.mapStates printStateSet)))
+  -- isomorphism (C20)
+  | "dfa_isomorphic1" => do
+    let D1 ← decDFA (← j.getObjVal? "D1"); let D2 ← decDFA (← j.getObjVal? "D2")
+    pure (exc Json.bool (D1.isomorphic1 D2 (← getSched j)))
+  | "dfa_isomorphic" => do
+    let D1 ← decDFA (← j.getObjVal? "D1"); let D2 ← decDFA (← j.getObjVal? "D2")
+    pure (exc Json.bool (D1.isomorphic D2 (← getSched j)))
   | _ => throw s!"unknown op {op}"
 
 partial def loop (h : IO.FS.Stream) (out : IO.FS.Stream) : IO Unit := do
